@@ -22,7 +22,7 @@ ASSUMPTIONS = [
     "the matcher's output is read from the InstanceLabelMap it returns",
 ]
 MINIMUM = {"C03.checked": 2000, "C03.monotonicity_judged": 300}
-BUDGET_S = {"quick": 600, "thorough": 900}
+BUDGET_S = {"quick": 1200, "thorough": 900}
 
 TINY = {"t1d3": ((3,), 3, 1), "t1d4": ((4,), 3, 1), "t2x2": ((2, 2), 3, 1), "t1d5": ((5,), 3, 0), "t2x3": ((2, 3), 3, 0)}
 EXHAUSTIVE = {"quick": False, "thorough": False}
